@@ -19,9 +19,12 @@ import re
 import sys
 
 
+sys.path.insert(0, os.path.dirname(os.path.abspath(__file__)))
+from _exec import ShapeMismatch, dump  # noqa: E402
+
+
 def die(msg):
-    print(f"gen/kinds.py: shape mismatch: {msg}")
-    sys.exit(1)
+    raise ShapeMismatch(msg)
 
 
 def lean_chars(s):
@@ -80,11 +83,7 @@ def arms(body, arm_re, what, default_re=None):
     return found
 
 
-def main():
-    if len(sys.argv) != 3:
-        print("usage: kinds.py <repo> <outdir>")
-        sys.exit(2)
-    repo, outdir = sys.argv[1], sys.argv[2]
+def extract(repo):
     try:
         src = strip_comments(open(os.path.join(repo, "src/haystack/val/kind.rs"), encoding="utf-8").read())
     except OSError as e:
@@ -150,6 +149,34 @@ def main():
                 if row[c] not in kset:
                     die(f"{what}: HaystackKind::{row[c]} is not a variant")
 
+    return kinds, from_u8, of_value, to_str, from_str, display
+
+
+def by_execution():
+    d = dump("c19")
+    if d is None:
+        return None
+    return ([tuple(x) for x in d["kinds"]], [tuple(x) for x in d["fromU8"]], [tuple(x) for x in d["ofValue"]],
+            [tuple(x) for x in d["toStr"]], [tuple(x) for x in d["fromStr"]], [tuple(x) for x in d["display"]])
+
+
+def main():
+    if len(sys.argv) != 3:
+        print("usage: kinds.py <repo> <outdir>")
+        sys.exit(2)
+    repo, outdir = sys.argv[1], sys.argv[2]
+    how = "source text"
+    try:
+        tables = extract(repo)
+    except ShapeMismatch as e:
+        tables = by_execution()
+        if tables is None:
+            print(f"gen/kinds.py: shape mismatch: {e}")
+            sys.exit(1)
+        how = "execution"
+        print(f"FALLBACK kinds: kind.rs no longer has the parsed shape ({e}); tables taken from `hsverif dump c19` (all 256 codes, all kinds, all names executed)")
+    kinds, from_u8, of_value, to_str, from_str, display = tables
+
     def pairs(name, doc, tbl):
         out = [f"/-- {doc} -/", f"def {name} : List (List Char × List Char) := ["]
         out.append(",\n".join(f"  ({lean_chars(a)}, {lean_chars(b)})" for a, b in tbl))
@@ -173,7 +200,7 @@ def main():
     out = os.path.join(outdir, "Kinds.lean")
     if not (os.path.exists(out) and open(out, encoding="utf-8").read() == text):
         open(out, "w", encoding="utf-8").write(text)
-    print(f"gen/kinds.py: {len(kinds)} kinds, tables {len(from_u8)}/{len(of_value)}/{len(to_str)}/{len(from_str)}/{len(display)} -> {out}")
+    print(f"gen/kinds.py ({how}): {len(kinds)} kinds, tables {len(from_u8)}/{len(of_value)}/{len(to_str)}/{len(from_str)}/{len(display)} -> {out}")
 
 
 if __name__ == "__main__":
